@@ -86,6 +86,8 @@ package pubsub
 //@   at call Push assert announcement: $arg0 == p.peers[pid] && $arg1 == lastret(rpcWithSubs) && !$arg2
 //@   at call SendRPC assert after-success: lastret((*rpcQueue).Push) == nil && $arg1 == lastret(rpcWithSubs) && $arg2 == pid
 //@   at call DropRPC assert after-failure: lastret((*rpcQueue).Push) != nil && $arg1 == lastret(rpcWithSubs) && $arg2 == pid
+//@   loop 1 step failed-push-scheduled-for-retry: calls(go:(*PubSub).announceRetry) - iter(calls(go:(*PubSub).announceRetry)) == ite(lastret((*rpcQueue).Push) != nil, 1, 0) &&
+//@        (lastret((*rpcQueue).Push) != nil ==> lastarg(go:(*PubSub).announceRetry, 1) == pid && lastarg(go:(*PubSub).announceRetry, 2) == topic && lastarg(go:(*PubSub).announceRetry, 3) == sub)
 //@   ensures every-peer-once: forall pid string :: attempts(pid) - old(attempts(pid)) == ite(pid in old(p.peers), 1, 0)
 //@   ensures single-subopt: len(lastarg(rpcWithSubs, 0)) == 1 && lastarg(rpcWithSubs, 0)[0] != nil &&
 //@        deref(lastarg(rpcWithSubs, 0)[0].Topicid) == topic && deref(lastarg(rpcWithSubs, 0)[0].Subscribe) == sub
@@ -229,3 +231,30 @@ package pubsub
 //@        (len(p.mySubs[req.topic.topic]) > 0 || p.myRelays[req.topic.topic] > 0 || len(p.myTopics[req.topic.topic].evtHandlers) > 0)) ==>
 //@        lastsent(req.resp) != nil && p.myTopics[old(req.topic.topic)] == old(p.myTopics[req.topic.topic]) && old(req.topic.topic) in p.myTopics
 //@   ensures others: forall t string :: t != old(req.topic.topic) ==> (t in p.myTopics) == old(t in p.myTopics) && p.myTopics[t] == old(p.myTopics[t])
+
+// ---- C05: announcement retries ----
+//
+// An announcement that hit a full queue is retried later from inside the event loop, but only
+// if it is still current: the retry thunk re-reads the subscription/relay tables and resends a
+// subscribe only while the node still has a subscription or relay for the topic, an unsubscribe
+// only while it has none. doAnnounceRetry makes exactly one push attempt for a still-connected
+// peer, traced as SEND_RPC or DROP_RPC, and schedules another retry on failure.
+//@ func (*PubSub).announceRetry$1
+//@   property C05
+//@   noframe
+//@   ensures resend-only-if-current: calls((*PubSub).doAnnounceRetry) - old(calls((*PubSub).doAnnounceRetry)) ==
+//@        ite((old(topic in p.mySubs) || old(topic in p.myRelays)) == sub, 1, 0)
+//@   ensures same-announcement: calls((*PubSub).doAnnounceRetry) > old(calls((*PubSub).doAnnounceRetry)) ==>
+//@        lastarg((*PubSub).doAnnounceRetry, 1) == pid && lastarg((*PubSub).doAnnounceRetry, 2) == topic && lastarg((*PubSub).doAnnounceRetry, 3) == sub
+
+//@ func (*PubSub).doAnnounceRetry
+//@   property C05 C19
+//@   noframe
+//@   ensures gone-peer-noop: !old(pid in p.peers) ==> calls((*rpcQueue).Push) == old(calls((*rpcQueue).Push)) && calls(go:(*PubSub).announceRetry) == old(calls(go:(*PubSub).announceRetry))
+//@   ensures one-attempt: old(pid in p.peers) ==> calls((*rpcQueue).Push) == old(calls((*rpcQueue).Push)) + 1 && lastarg((*rpcQueue).Push, 0) == old(p.peers[pid]) &&
+//@        lastarg((*rpcQueue).Push, 1) == lastret(rpcWithSubs)
+//@   ensures traced: old(pid in p.peers) ==> calls((*pubsubTracer).SendRPC) - old(calls((*pubsubTracer).SendRPC)) == ite(lastret((*rpcQueue).Push) == nil, 1, 0) &&
+//@        calls((*pubsubTracer).DropRPC) - old(calls((*pubsubTracer).DropRPC)) == ite(lastret((*rpcQueue).Push) != nil, 1, 0)
+//@   ensures failed-push-rescheduled: old(pid in p.peers) ==> calls(go:(*PubSub).announceRetry) - old(calls(go:(*PubSub).announceRetry)) == ite(lastret((*rpcQueue).Push) != nil, 1, 0)
+//@   ensures announcement: old(pid in p.peers) ==> len(lastarg(rpcWithSubs, 0)) == 1 && lastarg(rpcWithSubs, 0)[0] != nil && deref(lastarg(rpcWithSubs, 0)[0].Topicid) == topic &&
+//@        deref(lastarg(rpcWithSubs, 0)[0].Subscribe) == sub
